@@ -625,56 +625,27 @@ func (s *sess) checkSettingsPreserved(rule string) {
 			}
 			n++
 			ob := c.Ob(rule, fn.Name(), "replacement of Session.LogonSettings keeps HeartBtLimits, CloseTimeout, LogonTimeout", st.Pos())
-			// the literal: built here, or in a constructor helper of the package that receives the replaced settings
-			al, ok := st.Val.(*ssa.Alloc)
-			var at ssa.Instruction = st
-			oldName := "" // how the replaced settings are called where the literal is built ("" = s.LogonSettings itself)
-			if call, isCall := st.Val.(*ssa.Call); !ok && isCall {
-				if cal := an.StaticCallee(&call.Call); cal != nil && cal.Pkg == fn.Pkg && len(cal.Blocks) > 0 {
-					var ret *ssa.Return
-					nret := 0
-					an.AllInstrs(cal, func(i2 ssa.Instruction) {
-						if r, isR := i2.(*ssa.Return); isR {
-							ret = r
-							nret++
-						}
-					})
-					if nret == 1 && len(ret.Results) == 1 {
-						if al2, isAl := ret.Results[0].(*ssa.Alloc); isAl {
-							for i, a := range call.Call.Args {
-								if strings.HasSuffix(an.Render(a), ".LogonSettings") && i < len(cal.Params) {
-									oldName = cal.Params[i].Name()
-								}
-							}
-							if oldName != "" {
-								al, ok, at = al2, true, ret
-							}
-						}
-					}
-				}
-			}
-			if !ok {
-				ob.Unknown("the new settings are not a composite literal built here or in a constructor that is given the replaced settings: %s", an.Render(st.Val))
+			// symbolic evaluation of the installed object (literal here or in a constructor helper), see settings.go
+			fl := s.settingsFlow(fn)
+			if fl.Problem != "" {
+				ob.Unknown("%s", fl.Problem)
 				return
 			}
-			got := map[string]string{}
-			for _, ref := range *al.Referrers() {
-				if f2, ok := ref.(*ssa.FieldAddr); ok {
-					for _, r2 := range *f2.Referrers() {
-						if s2, ok := r2.(*ssa.Store); ok && s2.Addr == ssa.Value(f2) && an.Dominates(s2, at) {
-							got[an.FieldOf(f2).Name()] = an.Render(s2.Val)
+			var miss []string
+			for _, e := range fl.Envs {
+				for _, f := range []string{"HeartBtLimits", "CloseTimeout", "LogonTimeout"} {
+					if e.Env[f] != "s.LogonSettings."+f {
+						m := fmt.Sprintf("%s ← %q", f, e.Env[f])
+						dup := false
+						for _, x := range miss {
+							if x == m {
+								dup = true
+							}
+						}
+						if !dup {
+							miss = append(miss, m)
 						}
 					}
-				}
-			}
-			var miss []string
-			for _, f := range []string{"HeartBtLimits", "CloseTimeout", "LogonTimeout"} {
-				kept := strings.HasSuffix(got[f], ".LogonSettings."+f)
-				if oldName != "" {
-					kept = got[f] == oldName+"."+f
-				}
-				if !kept {
-					miss = append(miss, fmt.Sprintf("%s ← %q", f, got[f]))
 				}
 			}
 			if len(miss) > 0 {
